@@ -81,6 +81,10 @@ def run_jobs(rep, pid, tier):
 
 def run(rep, tier):
     run_jobs(rep, "C04", tier)
+    # "disabled terms contribute nothing / enabled terms are integrated" also rests on the cached aggregate switch AnyNumerics that Evolve consults:
+    # the five setters keep it equal to (any term on)  -- unbounded DFCC contracts shared with C10
+    from props import C10
+    C10.run_value_ops(rep, "C04", which=("setters",))
 
 
 def replay(path):
